@@ -154,7 +154,7 @@ def run(ctx):
                         ("" if ctx.model_ok else "model did not build")))
     still, got = k1_witness(ctx.scratch)
     if still:
-        known.append("C01-K1 added line beginning with '++ ' is taken for a diff file header (later hunk of the file loses attribution)")
+        known.append("C01-K1 added line beginning with '++ ' is taken for a file header")
     still4, _ = k4_witness(ctx.scratch)
     if still4 or k2_seen:
         known.append("C01-K4 an AI line committed earlier is re-added by a later commit with a whitespace-only change "
